@@ -62,6 +62,7 @@ StDeep == {S("Tagger+a(Multi(Py26,Ext))", Tagger(A, {}, Multi(<<L("Py26"), L("Ex
            S("Decor(Multi(TT,Py27))", Decor(Multi(<<L("TT"), L("Py27")>>))),
            S("Multi(Multi(Py26),Ext)", Multi(<<Multi(<<L("Py26")>>), L("Ext")>>)),
            S("TFR(ByTest)", TFR(L("ByTest"))),
+           S("E2O(ByTest)", E2O(L("ByTest"))),
            S("TFR(Text)", TFR(L("Text")))}
 StStream == {S("E2S", E2S), S("Decor(E2S)", Decor(E2S)), S("Tagger+a(E2S)", Tagger(A, {}, E2S)),
              S("Multi(E2S,Ext)", Multi(<<E2S, L("Ext")>>)), S("TFR(E2S)", TFR(E2S)),
@@ -74,11 +75,13 @@ StacksCore == {s \in StacksAll : s.name \in {"TT", "E2O(Py26)", "E2O(Tw)", "Mult
                                             "Tagger+a(Multi(Py26,Ext))", "E2S", "Multi(TFR(Ext),Py27)", "ByTest"}}
 StacksTags == {s \in StacksAll : s.name \in {"TT", "Text", "ByTest", "E2O(Py27)", "E2O(Ext)", "E2O(TT)", "TFR(Ext)", "TFR(TT)",
                    "Multi(Py26,Ext)", "Multi(Ext,ByTest)", "Decor(Ext)", "Decor(E2O(Tw))",
-                   "Tagger+a(TT)", "Tagger+a-b(Ext)", "Tagger-a(Ext)", "Tagger+a(E2O(Py27))", "Tagger+b(ByTest)",
+                   "Tagger+a(TT)", "Tagger+a-b(Ext)", "Tagger-a(Ext)", "Tagger+a(E2O(Py27))", "Tagger+b(ByTest)", "E2O(ByTest)",
                    "Tagger+a(Multi(Py26,Ext))", "Tagger+a(TFR(Ext))", "Tagger+a(Tagger-a+b(Ext))",
                    "Multi(Tagger+a(Ext),TT)", "Multi(TFR(Ext),Py27)", "TFR(Multi(Py26,Ext))",
                    "E2S", "Tagger+a(E2S)", "Multi(E2S,Ext)", "TFR(E2S)", "E2SX", "Tagger+a(E2SX)"}}
 
+\* every stack with a TestByTestResult at the bottom
+StacksByTest == {s \in StacksAll : \E i \in DOMAIN s.nodes : s.nodes[i].k = "ByTest"}
 StText == {s \in StacksAll : s.name = "Text"}
 StacksSetFF == {s \in StacksAll : CanSetFFKind(s.nodes[1].k)}
 StacksTimes == {s \in StacksAll : \E i \in DOMAIN s.nodes : s.nodes[i].k \in {"ByTest", "TFR", "Ext", "E2S", "Tw"}}
